@@ -1,5 +1,6 @@
 """C15 — malformed or foreign JSON is rejected, never loaded as a corrupted aggregator."""
 import copy
+import re
 import json
 import random
 
@@ -20,7 +21,7 @@ LEVEL_NOTE = ("Five lenient acceptances of the code are listed known findings an
               "by a theorem.")
 TECHNIQUE = "Lean 4 proof (decoder gates) + source-derived schema table checked by decide + exhaustive single-point mutation correspondence"
 LEAN_MODULE = "Hg.Props.C15"
-THEOREMS = ["Hg.C15.schema_matches", "Hg.C15.decode_keys_gate", "Hg.C15.hasKeys_spec", "Hg.C15.decode_entries", "Hg.C15.decode_count", "Hg.C15.decode_bag_nodup", "Hg.C15.decode_unknown_type", "Hg.C15.decode_header_gate", "Hg.C15.decode_complete"]
+THEOREMS = ["Hg.C15.schema_matches", "Hg.C15.decode_keys_gate", "Hg.C15.hasKeys_spec", "Hg.C15.decode_entries", "Hg.C15.decode_count", "Hg.C15.decode_bag_nodup", "Hg.C15.decode_unknown_type", "Hg.C15.decode_header_gate", "Hg.C15.decode_complete", "Hg.C15.decode_sparse_nodup", "Hg.C15.decode_immut_fixed", "Hg.C15.decode_knownCtype", "Hg.C15.decode_stable_of_good"]
 CASES = {"quick": 200, "thorough": 6000}
 RULE = ("valid documents (toJson of random trees in random states) and their single-point structural mutations at every position: "
         "delete a key, add a key (names drawn from every record kind of the format), retype a value over {null,bool,number,string,"
@@ -74,6 +75,12 @@ def enumerate_mutations(doc):
                 if k not in node:
                     for val in (1.0, "x", {"entries": 0.0}):
                         out.append(("add key %s=%r at %s" % (k, val, "/".join(map(str, path))), path, "set", (k, val)))
+            if path and path[-1] == "bins" and node and all(re.fullmatch(r"-?\d+", str(k)) for k in node):
+                # the bins of a SparselyBin are keyed by integers written as strings: a second spelling of an index that is
+                # already there ("01" next to "1") would make two entries of one bin
+                for k in list(node):
+                    alias = ("-0" + k[1:]) if k.startswith("-") else ("0" + k)
+                    out.append(("alias key %s of bin %s at %s" % (alias, k, "/".join(map(str, path))), path, "set", (alias, node[k])))
             for k in list(node):
                 walk(node[k], path + [k])
         elif isinstance(node, list):
@@ -213,7 +220,7 @@ def expand_ops(op, py):
     if len(ms) > op[3]:
         # a random sample, plus the few mutations that name an unknown primitive, plus one mutation of every class
         # (kind of change x replacement value), so that no class depends on the luck of the sample
-        keep = [m for m in ms if m[0].startswith("unknown type")]
+        keep = [m for m in ms if m[0].startswith("unknown type") or m[0].startswith("alias key")]
         classes = {}
         for m in ms:
             classes.setdefault(_mclass(m), []).append(m)
